@@ -492,5 +492,113 @@ theorem negationRule_sound {t : DataType} {a p r : Expr} (hp : Pres opq p a)
         | lit _ _ _ | this _ | var _ _ | set _ _ | range _ _ _ _ _ | quant _ _ _ _ _ | bin _ _ _ _ | call _ _ _ | field _ _ _ | index _ _ _ =>
           exact viaNot r h
 
+
+/-! ## implication and equivalence: the rewrites applied before re-entering the simplifier -/
+
+theorem truth_iff (ρ : Env) (t : DataType) (p q : Expr) :
+    truth opq ρ (.bin t Gen.IFF_OPERATOR p q) = (do let a ← truth opq ρ p; let b ← truth opq ρ q; pure (a == b)) :=
+  truth_boolOp opq boolOp_iff ρ t p q
+
+/-- `a implies a` is `True`; otherwise `a implies b` is rewritten to `(not a) or b` -/
+theorem impliesRule_sound {t : DataType} {a b r : Expr}
+    (h : (if a == b then pure trueLit else do let na ← mkNot a; mkOr na b : M Expr) = .ok r) : Pres opq r (.bin t "implies" a b) := by
+  apply pres_of_truth opq (Or.inr (Or.inr (Or.inl rfl)))
+  intro ρ v hv
+  rw [show ("implies" : String) = Gen.IMPLIES_OPERATOR from rfl, truth_implies] at hv
+  split at h
+  · rename_i heq
+    cases h
+    have : a = b := expr_eq_of_beq heq
+    subst this
+    cases ha : truth opq ρ a with
+    | none => simp [ha, bind, Option.bind] at hv
+    | some x => simp [ha, bind, Option.bind, pure] at hv; subst hv; cases x <;> rfl
+  · obtain ⟨na, hna, h⟩ := bind_ok h
+    have hor := mkOf_truth opq false h ρ
+    simp only [fOf, Bool.false_eq_true, ↓reduceIte] at hor
+    rw [hor]
+    have hnot : truth opq ρ na = (truth opq ρ a).map (!·) := by
+      have := mkUn_eval opq hna ρ
+      unfold truth
+      rw [this]
+      cases hea : eval opq ρ a with
+      | error e => simp [bind, Except.bind, Except.toOption, Option.map]
+      | ok x =>
+        simp only [bind, Except.bind]
+        rw [show Gen.NOT_OPERATOR = "not" from rfl, unOp_not]
+        cases hb : asBool x <;> simp [bind, Except.bind, pure, Except.pure, Except.toOption, Option.map, asBool, Value.bool]
+    rw [hnot]
+    cases ha : truth opq ρ a with
+    | none => simp [ha, bind, Option.bind] at hv
+    | some x =>
+      cases hb : truth opq ρ b with
+      | none => simp [ha, hb, bind, Option.bind] at hv
+      | some y => simp [ha, hb, bind, Option.bind, pure] at hv ⊢; exact hv
+
+
+/-- `_simplify_negative_number` on the simplified operand -/
+theorem negNumberRule_sound {t : DataType} {a a' r : Expr} (hp : Pres opq a' a)
+    (h : (match numLit? a' with
+      | some v => do let n ← pyNeg v; litNumber n
+      | none =>
+        match a' with
+        | .un _ op x => if op == "-" then pure x else mkMinus a'
+        | _ => mkMinus a' : M Expr) = .ok r) : Pres opq r (.un t "-" a) := by
+  intro ρ v hv
+  obtain ⟨x, hx, hop⟩ := (eval_un_ok opq).1 hv
+  rw [unOp_neg] at hop
+  cases hn : asNum x with
+  | error e => rw [hn] at hop; simp [bind, Except.bind] at hop
+  | ok q =>
+    rw [hn] at hop
+    simp only [bind, Except.bind, pure, Except.pure, Except.ok.injEq] at hop
+    subst hop
+    have hxq := asNum_ok.1 hn
+    subst hxq
+    have hpx := hp ρ _ hx
+    have viaMinus : ∀ r, mkMinus a' = .ok r → eval opq ρ r = .ok (Value.num (-q)) := fun r hr => mkUn_ok_eval opq hr hpx (unOp_neg_num q)
+    cases hl : numLit? a' with
+    | some lv =>
+      rw [hl] at h
+      simp only at h
+      obtain ⟨n, hneg, h⟩ := bind_ok h
+      rw [litNumber_eval opq h ρ]
+      cases a' with
+      | lit ta ka va =>
+        simp only [numLit?] at hl
+        split at hl
+        · cases hl
+          have hval : litValue lv = .ok (Value.num q) := by rw [← eval_lit opq ρ ta ka lv]; exact hpx
+          rcases litValue_num hval with ⟨rfl, hd⟩ | rfl
+          · simp only [pyNeg, Except.ok.injEq] at hneg; subst hneg
+            simp only [litValue, Except.ok.injEq, Value.num, Value.prim.injEq, Prim.num.injEq]
+            have : (q.num : Rat) = q := Rat.ext (by simp) (by simp [hd])
+            rw [← this]; simp
+          · simp only [pyNeg, Except.ok.injEq] at hneg; subst hneg; rfl
+        · cases hl
+      | _ => simp [numLit?] at hl
+    | none =>
+      rw [hl] at h
+      simp only at h
+      cases a' with
+      | un t2 op2 x2 =>
+        simp only at h
+        split at h
+        · rename_i hm
+          cases h
+          have : op2 = "-" := eq_of_beq hm
+          subst this
+          obtain ⟨xv, hxv, hu⟩ := (eval_un_ok opq).1 hpx
+          rw [unOp_neg] at hu
+          cases hn2 : asNum xv with
+          | error e => rw [hn2] at hu; simp [bind, Except.bind] at hu
+          | ok q2 =>
+            rw [hn2] at hu
+            simp only [bind, Except.bind, pure, Except.pure, Except.ok.injEq, Value.num, Value.prim.injEq, Prim.num.injEq] at hu
+            rw [hxv, asNum_ok.1 hn2]; congr 2; rw [← hu]; grind
+        · exact viaMinus r h
+      | lit _ _ _ | this _ | var _ _ | set _ _ | range _ _ _ _ _ | quant _ _ _ _ _ | bin _ _ _ _ | call _ _ _ | field _ _ _ | index _ _ _ =>
+        exact viaMinus r h
+
 end
 end Hpl
